@@ -66,6 +66,8 @@ CLAIMED = {
          "All 2^32 (pairs of) values: conversions round-trip, named variants exactly for the specified numbers, id wrapper commutes, all PartialEq directions equal numeric equality; all 256 framebuffer type bytes; magic constants.",
          "dev-profile semantics; ELF section-type classification via the cfg(multiboot2_verif) hook"),
 }
+MIRSE = {"C01", "C04", "C05", "C06", "C08", "C12", "C13", "C19"}     # properties with a mirse target
+KANI_TOO = {"C01", "C04", "C05", "C06", "C08", "C12", "C13", "C19"}  # ... that also have Kani harnesses
 NA_REASON = "check not built yet (work in progress; plan in DESIGN.md §4)"
 NA = {}
 
@@ -90,10 +92,13 @@ def main():
         if i in CLAIMED:
             t, txt, note = CLAIMED[i]
             m["checks"].append({"property_id": i, "quick_cmd": f"bin/vcheck {i} --tier quick", "thorough_cmd": f"bin/vcheck {i} --tier thorough",
-                                "evidence_file": f"evidence/{i}.json", "replay_cmd_template": "bin/vcheck --replay {path}", "engine": "kani",
+                                "evidence_file": f"evidence/{i}.json", "replay_cmd_template": "bin/vcheck --replay {path}",
+                                "engine": ("kani+mirse" if i in MIRSE and i in KANI_TOO else ("mirse" if i in MIRSE and i not in KANI_TOO else "kani")),
                                 "level_claimed": {"category": "model_checking", "text": txt, "design_ref": f"DESIGN.md §4 {i}"},
                                 "level_note": note + "; trusted: rustc MIR construction, Kani MIR->goto, CBMC, CaDiCaL, z3", "technique": t})
             m["engines"][0]["serves_properties"].append(i)
+            if i in MIRSE:
+                m["engines"][1]["serves_properties"].append(i)
         else:
             m["not_applicable"].append({"property_id": i, "reason": NA.get(i, NA_REASON)})
     json.dump(m, open(os.path.join(V, "MANIFEST.json"), "w"), indent=1)
